@@ -320,7 +320,6 @@ fn fam_parse<'a, S: Src>(s: &mut S, c: &Ctx, p: Parser<'a>, which: usize) -> Opt
 harness! {
     /// kind=bounded tier=quick bound="orig: valid UTF-8 string<=6 bytes, every sub-slice on char boundaries; base any u32 with base+len<=u32::MAX; one direction-changing operation before into_error"
     #[kani::unwind(10)]
-    #[kani::stub(konst_kernel::string::non_char_boundary_panic, crate::hlib::stub_non_char_boundary_panic)]
     fn c13_ctor(s) {
         let bs = BStr::<6>::any(s);
         let orig = bs.as_str();
@@ -357,7 +356,6 @@ harness! {
 harness! {
     /// kind=bounded tier=quick bound="orig: valid UTF-8 string<=6 bytes, parser over every sub-slice on char boundaries; base any u32 with base+len<=u32::MAX"
     #[kani::unwind(10)]
-    #[kani::stub(konst_kernel::string::non_char_boundary_panic, crate::hlib::stub_non_char_boundary_panic)]
     fn c13_trim_one_sided(s) {
         let bs = BStr::<6>::any(s);
         let orig = bs.as_str();
@@ -373,7 +371,6 @@ harness! {
 harness! {
     /// kind=bounded tier=quick bound="orig: valid UTF-8 string<=6 bytes, parser over every sub-slice on char boundaries; base any u32 with base+len<=u32::MAX"
     #[kani::unwind(10)]
-    #[kani::stub(konst_kernel::string::non_char_boundary_panic, crate::hlib::stub_non_char_boundary_panic)]
     fn c13_trim_two_sided(s) {
         let bs = BStr::<6>::any(s);
         let orig = bs.as_str();
@@ -389,7 +386,6 @@ harness! {
 harness! {
     /// kind=bounded tier=quick bound="orig: valid UTF-8 string<=4 bytes, parser over every sub-slice on char boundaries; pattern: any char; base any u32 with base+len<=u32::MAX"
     #[kani::unwind(7)]
-    #[kani::stub(konst_kernel::string::non_char_boundary_panic, crate::hlib::stub_non_char_boundary_panic)]
     fn c13_trim_matches_two_sided_char(s) {
         let bs = BStr::<4>::any(s);
         let orig = bs.as_str();
@@ -406,7 +402,6 @@ harness! {
 harness! {
     /// kind=bounded tier=quick bound="orig: valid UTF-8 string<=4 bytes, parser over every sub-slice on char boundaries; pattern: any valid UTF-8 &str<=2 bytes; base any u32 with base+len<=u32::MAX"
     #[kani::unwind(7)]
-    #[kani::stub(konst_kernel::string::non_char_boundary_panic, crate::hlib::stub_non_char_boundary_panic)]
     fn c13_trim_matches_two_sided_str(s) {
         let bs = BStr::<4>::any(s);
         let orig = bs.as_str();
@@ -424,7 +419,6 @@ harness! {
 harness! {
     /// kind=bounded tier=quick bound="orig: valid UTF-8 string<=4 bytes, parser over every sub-slice on char boundaries; pattern: any char; base any u32 with base+len<=u32::MAX"
     #[kani::unwind(7)]
-    #[kani::stub(konst_kernel::string::non_char_boundary_panic, crate::hlib::stub_non_char_boundary_panic)]
     fn c13_trim_start_matches_char(s) {
         let bs = BStr::<4>::any(s);
         let orig = bs.as_str();
@@ -440,7 +434,6 @@ harness! {
 harness! {
     /// kind=bounded tier=quick bound="orig: valid UTF-8 string<=4 bytes, parser over every sub-slice on char boundaries; pattern: any valid UTF-8 &str<=2 bytes; base any u32 with base+len<=u32::MAX"
     #[kani::unwind(7)]
-    #[kani::stub(konst_kernel::string::non_char_boundary_panic, crate::hlib::stub_non_char_boundary_panic)]
     fn c13_trim_start_matches_str(s) {
         let bs = BStr::<4>::any(s);
         let orig = bs.as_str();
@@ -457,7 +450,6 @@ harness! {
 harness! {
     /// kind=bounded tier=quick bound="orig: valid UTF-8 string<=4 bytes, parser over every sub-slice on char boundaries; pattern: any char; base any u32 with base+len<=u32::MAX"
     #[kani::unwind(7)]
-    #[kani::stub(konst_kernel::string::non_char_boundary_panic, crate::hlib::stub_non_char_boundary_panic)]
     fn c13_trim_end_matches_char(s) {
         let bs = BStr::<4>::any(s);
         let orig = bs.as_str();
@@ -473,7 +465,6 @@ harness! {
 harness! {
     /// kind=bounded tier=quick bound="orig: valid UTF-8 string<=4 bytes, parser over every sub-slice on char boundaries; pattern: any valid UTF-8 &str<=2 bytes; base any u32 with base+len<=u32::MAX"
     #[kani::unwind(7)]
-    #[kani::stub(konst_kernel::string::non_char_boundary_panic, crate::hlib::stub_non_char_boundary_panic)]
     fn c13_trim_end_matches_str(s) {
         let bs = BStr::<4>::any(s);
         let orig = bs.as_str();
@@ -490,7 +481,6 @@ harness! {
 harness! {
     /// kind=bounded tier=quick bound="orig: valid UTF-8 string<=5 bytes, parser over every sub-slice on char boundaries; pattern: any char; base any u32 with base+len<=u32::MAX"
     #[kani::unwind(9)]
-    #[kani::stub(konst_kernel::string::non_char_boundary_panic, crate::hlib::stub_non_char_boundary_panic)]
     fn c13_strip_char(s) {
         let bs = BStr::<5>::any(s);
         let orig = bs.as_str();
@@ -509,7 +499,6 @@ harness! {
 harness! {
     /// kind=bounded tier=quick bound="orig: valid UTF-8 string<=5 bytes, parser over every sub-slice on char boundaries; pattern: any valid UTF-8 &str<=2 bytes; base any u32 with base+len<=u32::MAX"
     #[kani::unwind(9)]
-    #[kani::stub(konst_kernel::string::non_char_boundary_panic, crate::hlib::stub_non_char_boundary_panic)]
     fn c13_strip_str(s) {
         let bs = BStr::<5>::any(s);
         let orig = bs.as_str();
@@ -529,7 +518,6 @@ harness! {
 harness! {
     /// kind=bounded tier=quick bound="orig: valid UTF-8 string<=4 bytes, parser over every sub-slice on char boundaries; pattern: any char; base any u32 with base+len<=u32::MAX"
     #[kani::unwind(12)]
-    #[kani::stub(konst_kernel::string::non_char_boundary_panic, crate::hlib::stub_non_char_boundary_panic)]
     fn c13_find_skip_char(s) {
         let bs = BStr::<4>::any(s);
         let orig = bs.as_str();
@@ -548,7 +536,6 @@ harness! {
 harness! {
     /// kind=bounded tier=quick bound="orig: valid UTF-8 string<=5 bytes, parser over every sub-slice on char boundaries; pattern: any valid UTF-8 &str<=2 bytes; base any u32 with base+len<=u32::MAX"
     #[kani::unwind(12)]
-    #[kani::stub(konst_kernel::string::non_char_boundary_panic, crate::hlib::stub_non_char_boundary_panic)]
     fn c13_find_skip_str(s) {
         let bs = BStr::<5>::any(s);
         let orig = bs.as_str();
@@ -568,7 +555,6 @@ harness! {
 harness! {
     /// kind=bounded tier=quick bound="orig: valid UTF-8 string<=4 bytes, parser over every sub-slice on char boundaries, or an exhausted split (flag set, empty remainder at any char boundary); pattern: any char; base any u32 with base+len<=u32::MAX"
     #[kani::unwind(12)]
-    #[kani::stub(konst_kernel::string::non_char_boundary_panic, crate::hlib::stub_non_char_boundary_panic)]
     fn c13_split_char(s) {
         let bs = BStr::<4>::any(s);
         let orig = bs.as_str();
@@ -591,7 +577,6 @@ harness! {
 harness! {
     /// kind=bounded tier=quick bound="orig: valid UTF-8 string<=4 bytes, parser over every sub-slice on char boundaries, or an exhausted split (flag set, empty remainder at any char boundary); pattern: any valid UTF-8 &str<=2 bytes; base any u32 with base+len<=u32::MAX"
     #[kani::unwind(10)]
-    #[kani::stub(konst_kernel::string::non_char_boundary_panic, crate::hlib::stub_non_char_boundary_panic)]
     fn c13_split_str(s) {
         let bs = BStr::<4>::any(s);
         let orig = bs.as_str();
@@ -615,7 +600,6 @@ harness! {
 harness! {
     /// kind=bounded tier=quick bound="orig: valid UTF-8 string<=4 bytes, parser over every sub-slice on char boundaries, or an exhausted split (flag set, empty remainder at any char boundary); pattern: any char; base any u32 with base+len<=u32::MAX"
     #[kani::unwind(12)]
-    #[kani::stub(konst_kernel::string::non_char_boundary_panic, crate::hlib::stub_non_char_boundary_panic)]
     fn c13_split_keep_char(s) {
         let bs = BStr::<4>::any(s);
         let orig = bs.as_str();
@@ -636,7 +620,6 @@ harness! {
 harness! {
     /// kind=bounded tier=quick bound="orig: valid UTF-8 string<=4 bytes, parser over every sub-slice on char boundaries, or an exhausted split (flag set, empty remainder at any char boundary); pattern: any valid UTF-8 &str<=2 bytes; base any u32 with base+len<=u32::MAX"
     #[kani::unwind(10)]
-    #[kani::stub(konst_kernel::string::non_char_boundary_panic, crate::hlib::stub_non_char_boundary_panic)]
     fn c13_split_keep_str(s) {
         let bs = BStr::<4>::any(s);
         let orig = bs.as_str();
@@ -658,7 +641,6 @@ harness! {
 harness! {
     /// kind=bounded tier=quick bound="orig: valid UTF-8 string<=4 bytes, parser over every sub-slice on char boundaries, or an exhausted split (flag set, empty remainder at any char boundary); pattern: any char; base any u32 with base+len<=u32::MAX"
     #[kani::unwind(12)]
-    #[kani::stub(konst_kernel::string::non_char_boundary_panic, crate::hlib::stub_non_char_boundary_panic)]
     fn c13_split_terminator_char(s) {
         let bs = BStr::<4>::any(s);
         let orig = bs.as_str();
@@ -681,7 +663,6 @@ harness! {
 harness! {
     /// kind=bounded tier=quick bound="orig: valid UTF-8 string<=4 bytes, parser over every sub-slice on char boundaries, or an exhausted split (flag set, empty remainder at any char boundary); pattern: any valid UTF-8 &str<=2 bytes; base any u32 with base+len<=u32::MAX"
     #[kani::unwind(10)]
-    #[kani::stub(konst_kernel::string::non_char_boundary_panic, crate::hlib::stub_non_char_boundary_panic)]
     fn c13_split_terminator_str(s) {
         let bs = BStr::<4>::any(s);
         let orig = bs.as_str();
@@ -705,7 +686,6 @@ harness! {
 harness! {
     /// kind=bounded tier=quick bound="orig: valid UTF-8 string<=6 bytes, parser over every sub-slice on char boundaries; byte count any usize; base any u32 with base+len<=u32::MAX"
     #[kani::unwind(10)]
-    #[kani::stub(konst_kernel::string::non_char_boundary_panic, crate::hlib::stub_non_char_boundary_panic)]
     fn c13_skip(s) {
         let bs = BStr::<6>::any(s);
         let orig = bs.as_str();
@@ -723,7 +703,6 @@ harness! {
 harness! {
     /// kind=bounded tier=quick bound="orig: valid UTF-8 string<=6 bytes, parser over every sub-slice on char boundaries; parse_u8 / parse_i16 / parse_bool; base any u32 with base+len<=u32::MAX"
     #[kani::unwind(10)]
-    #[kani::stub(konst_kernel::string::non_char_boundary_panic, crate::hlib::stub_non_char_boundary_panic)]
     fn c13_parse(s) {
         let bs = BStr::<6>::any(s);
         let orig = bs.as_str();
@@ -741,7 +720,6 @@ harness! {
 harness! {
     /// kind=bounded tier=thorough bound="orig: valid UTF-8 string<=6 bytes, parser over every sub-slice on char boundaries; pattern: any char; base any u32 with base+len<=u32::MAX"
     #[kani::unwind(9)]
-    #[kani::stub(konst_kernel::string::non_char_boundary_panic, crate::hlib::stub_non_char_boundary_panic)]
     fn c13_trim_matches_one_sided_big_char(s) {
         let bs = BStr::<6>::any(s);
         let orig = bs.as_str();
@@ -758,7 +736,6 @@ harness! {
 harness! {
     /// kind=bounded tier=thorough bound="orig: valid UTF-8 string<=6 bytes, parser over every sub-slice on char boundaries; pattern: any valid UTF-8 &str<=2 bytes; base any u32 with base+len<=u32::MAX"
     #[kani::unwind(9)]
-    #[kani::stub(konst_kernel::string::non_char_boundary_panic, crate::hlib::stub_non_char_boundary_panic)]
     fn c13_trim_matches_one_sided_big_str(s) {
         let bs = BStr::<6>::any(s);
         let orig = bs.as_str();
@@ -774,9 +751,8 @@ harness! {
 }
 
 harness! {
-    /// kind=bounded tier=thorough bound="orig: valid UTF-8 string<=7 bytes, parser over every sub-slice on char boundaries; pattern: any char; base any u32 with base+len<=u32::MAX"
+    /// kind=bounded tier=quick bound="orig: valid UTF-8 string<=7 bytes, parser over every sub-slice on char boundaries; pattern: any char; base any u32 with base+len<=u32::MAX"
     #[kani::unwind(11)]
-    #[kani::stub(konst_kernel::string::non_char_boundary_panic, crate::hlib::stub_non_char_boundary_panic)]
     fn c13_strip_big_char(s) {
         let bs = BStr::<7>::any(s);
         let orig = bs.as_str();
@@ -791,9 +767,8 @@ harness! {
 }
 
 harness! {
-    /// kind=bounded tier=thorough bound="orig: valid UTF-8 string<=7 bytes, parser over every sub-slice on char boundaries; pattern: any valid UTF-8 &str<=2 bytes; base any u32 with base+len<=u32::MAX"
+    /// kind=bounded tier=quick bound="orig: valid UTF-8 string<=7 bytes, parser over every sub-slice on char boundaries; pattern: any valid UTF-8 &str<=2 bytes; base any u32 with base+len<=u32::MAX"
     #[kani::unwind(11)]
-    #[kani::stub(konst_kernel::string::non_char_boundary_panic, crate::hlib::stub_non_char_boundary_panic)]
     fn c13_strip_big_str(s) {
         let bs = BStr::<7>::any(s);
         let orig = bs.as_str();
@@ -809,9 +784,8 @@ harness! {
 }
 
 harness! {
-    /// kind=bounded tier=thorough bound="orig: valid UTF-8 string<=5 bytes, parser over every sub-slice on char boundaries; pattern: any char; base any u32 with base+len<=u32::MAX"
+    /// kind=bounded tier=quick bound="orig: valid UTF-8 string<=5 bytes, parser over every sub-slice on char boundaries; pattern: any char; base any u32 with base+len<=u32::MAX"
     #[kani::unwind(17)]
-    #[kani::stub(konst_kernel::string::non_char_boundary_panic, crate::hlib::stub_non_char_boundary_panic)]
     fn c13_find_skip_big_char(s) {
         let bs = BStr::<5>::any(s);
         let orig = bs.as_str();
@@ -826,9 +800,8 @@ harness! {
 }
 
 harness! {
-    /// kind=bounded tier=thorough bound="orig: valid UTF-8 string<=6 bytes, parser over every sub-slice on char boundaries; pattern: any valid UTF-8 &str<=2 bytes; base any u32 with base+len<=u32::MAX"
+    /// kind=bounded tier=quick bound="orig: valid UTF-8 string<=6 bytes, parser over every sub-slice on char boundaries; pattern: any valid UTF-8 &str<=2 bytes; base any u32 with base+len<=u32::MAX"
     #[kani::unwind(15)]
-    #[kani::stub(konst_kernel::string::non_char_boundary_panic, crate::hlib::stub_non_char_boundary_panic)]
     fn c13_find_skip_big_str(s) {
         let bs = BStr::<6>::any(s);
         let orig = bs.as_str();
@@ -846,7 +819,6 @@ harness! {
 harness! {
     /// kind=bounded tier=thorough bound="orig: valid UTF-8 string<=5 bytes, parser over every sub-slice on char boundaries, or an exhausted split (flag set, empty remainder at any char boundary); pattern: any char; base any u32 with base+len<=u32::MAX"
     #[kani::unwind(17)]
-    #[kani::stub(konst_kernel::string::non_char_boundary_panic, crate::hlib::stub_non_char_boundary_panic)]
     fn c13_split_big_char(s) {
         let bs = BStr::<5>::any(s);
         let orig = bs.as_str();
@@ -867,7 +839,6 @@ harness! {
 harness! {
     /// kind=bounded tier=thorough bound="orig: valid UTF-8 string<=6 bytes, parser over every sub-slice on char boundaries, or an exhausted split (flag set, empty remainder at any char boundary); pattern: any valid UTF-8 &str<=2 bytes; base any u32 with base+len<=u32::MAX"
     #[kani::unwind(15)]
-    #[kani::stub(konst_kernel::string::non_char_boundary_panic, crate::hlib::stub_non_char_boundary_panic)]
     fn c13_split_big_str(s) {
         let bs = BStr::<6>::any(s);
         let orig = bs.as_str();
@@ -887,9 +858,8 @@ harness! {
 }
 
 harness! {
-    /// kind=bounded tier=thorough bound="orig: valid UTF-8 string<=5 bytes, parser over every sub-slice on char boundaries, or an exhausted split (flag set, empty remainder at any char boundary); pattern: any char; base any u32 with base+len<=u32::MAX"
+    /// kind=bounded tier=quick bound="orig: valid UTF-8 string<=5 bytes, parser over every sub-slice on char boundaries, or an exhausted split (flag set, empty remainder at any char boundary); pattern: any char; base any u32 with base+len<=u32::MAX"
     #[kani::unwind(17)]
-    #[kani::stub(konst_kernel::string::non_char_boundary_panic, crate::hlib::stub_non_char_boundary_panic)]
     fn c13_split_terminator_big_char(s) {
         let bs = BStr::<5>::any(s);
         let orig = bs.as_str();
@@ -910,7 +880,6 @@ harness! {
 harness! {
     /// kind=bounded tier=thorough bound="orig: valid UTF-8 string<=6 bytes, parser over every sub-slice on char boundaries, or an exhausted split (flag set, empty remainder at any char boundary); pattern: any valid UTF-8 &str<=2 bytes; base any u32 with base+len<=u32::MAX"
     #[kani::unwind(15)]
-    #[kani::stub(konst_kernel::string::non_char_boundary_panic, crate::hlib::stub_non_char_boundary_panic)]
     fn c13_split_terminator_big_str(s) {
         let bs = BStr::<6>::any(s);
         let orig = bs.as_str();
